@@ -1,7 +1,7 @@
 (* Specification of the daemon's ring life-cycle and kick routing (C11, C17),
    written from the property text; independent of the hand model.  [dmn_spec]
    judges the observed dispatches of a run against it. *)
-From VV Require Import Base.Bits Base.Val Spec.BeSpec.
+From VV Require Import Base.Bits Base.Val Spec.BeSpec Spec.MemSpec.
 Open Scope string_scope.
 Open Scope list_scope.
 Open Scope N_scope.
@@ -155,7 +155,10 @@ Definition dmn_spec (args : list val) : val :=
           if hasb v 8 && hasb f VF_PROTOCOL_FEATURES then
             let v := swalk {| ss_rings := repeat {| sr_started := false; sr_enabled := false; sr_kick := None; sr_size := maxq; sr_next_avail := 0 |} (N.to_nat nq);
                               ss_pending := []; ss_masks := ms; ss_features := f |} steps obs in
-            if v =? 0 then VS "true" else if v =? 17 then VS "false:C17" else VS "false:C11"
+            if v =? 17 then VS "false:C17" else if negb (v =? 0) then VS "false:C11"
+            else
+              let w := mwalk (minit nq maxq f) steps obs in
+              if w =? 0 then VS "true" else if w =? 13 then VS "false:C13" else VS "false:C14"
           else VS "n/a"
       | _, _ => VS "n/a"
       end
